@@ -156,6 +156,10 @@ def _gram_cd_epoch(scaled_gram, w, grad, penalty, greedy_cd):
         else:  # cyclic
             j = cd_iter
 
+        # skip all-zero features
+        if scaled_gram[j, j] == 0.:
+            continue
+
         # update w_j
         old_w_j = w[j]
         step = 1 / scaled_gram[j, j]  # 1 / lipschitz_j
